@@ -111,27 +111,33 @@ Definition close_bond (strong : bool) (s : pstate) (a : Z) (ob : option token) :
   | Some (obt, obv) =>
     match ps_prev s with
     | None =>
-        if obt =? 9 then match as_bool obv with Ok v => Ok (PInt 1, sb_set (ps_sbonds s) a last v, ps_log s, None) | Err e => Err e end
+        if obt =? 9 then match as_bool obv with
+                         | Ok v => Ok (PInt 1, sb_set (sb_set (ps_sbonds s) a last v) last a (negb v), ps_log s, None)
+                         | Err e => Err e end
         else if strong then ISm
         else Ok (obv, ps_sbonds s, ps_log s + 1, None)
     | Some (bt, b) =>
         if bt =? 9 then
           match (if obt =? 9 then match as_bool obv with Ok v => Ok (sb_set (ps_sbonds s) a last v) | Err e => Err e end
                  else if negb (py_eq obv (PInt 1)) then ISm
-                 else Ok (ps_sbonds s)) with
+                 else match as_bool b with Ok v => Ok (sb_set (ps_sbonds s) a last (negb v)) | Err e => Err e end) with
           | Err e => Err e
           | Ok sb => match as_bool b with Ok v => Ok (PInt 1, sb_set sb last a v, ps_log s, None) | Err e => Err e end
           end
         else if obt =? 9 then
           if negb (py_eq b (PInt 1)) then ISm
-          else match as_bool obv with Ok v => Ok (b, sb_set (ps_sbonds s) a last v, ps_log s, None) | Err e => Err e end
+          else match as_bool obv with
+               | Ok v => Ok (b, sb_set (sb_set (ps_sbonds s) a last v) last a (negb v), ps_log s, None)
+               | Err e => Err e end
         else if negb (py_eq b obv) then ISm
         else Ok (b, ps_sbonds s, ps_log s, None)
     end
   | None =>
     match ps_prev s with
     | Some (bt, b) =>
-        if bt =? 9 then match as_bool b with Ok v => Ok (PInt 1, sb_set (ps_sbonds s) last a v, ps_log s, None) | Err e => Err e end
+        if bt =? 9 then match as_bool b with
+                        | Ok v => Ok (PInt 1, sb_set (sb_set (ps_sbonds s) last a v) a last (negb v), ps_log s, None)
+                        | Err e => Err e end
         else if strong then ISm
         else Ok (b, ps_sbonds s, ps_log s + 1, None)
     | None =>
@@ -266,7 +272,7 @@ Definition guard (ts : list token) : pyres unit :=
   | (t1, _) :: r =>
       if t1 =? 2 then
         match r with
-        | [] => Err IndexError
+        | [] => ISm                                   (* len(tokens) < 2 *)
         | (t2, _) :: _ => if zmem t2 [0; 8] then Ok tt else ISm
         end
       else if zmem t1 [0; 8] then Ok tt else ISm
